@@ -112,6 +112,12 @@ def harnesses(ctx, tier):
     hs.append(Harness(name="H4_ac_transitions_subset", src="c05/ac_leaf.c", defines=["-DVF_MODE=1"], unwind=5, timeout=300,
                       desc="_yr_ac_transitions_subset on two arbitrary child lists: a needed failure link is never optimised away",
                       bounds="<= 3 children per state, all input bytes", functions=["_yr_ac_transitions_subset"]))
+    for i in (0, 1, 2):
+        hs.append(Harness(name="H3_base64_alignment%d" % i, src="c01/h_base64.c", defines=["-DVF_I=%d" % i, "-DVF_L=5"], unwind=8, timeout=600,
+                          unwind_funcs={"main": 66, "memcpy": 12, "memset": 18},
+                          desc="base64 modifier: the string searched for alignment %d is determined by the plain string alone (any alphabet, any surrounding bytes)" % i,
+                          bounds="plain string 3..5 bytes, arbitrary 64-byte alphabet, arbitrary prefix/suffix bytes",
+                          functions=["_yr_modified_base64_encode", "_yr_base64_get_base64_substring"]))
     T = QUICK + (THOROUGH_EXTRA if tier == "thorough" else [])
     for name, sb, mods in T:
         hs.append(text_template(name, list(sb), mods, N))
@@ -121,7 +127,7 @@ ASSUMPTIONS = ["program dimension: a fixed family of text-string templates (lite
                "buffers <= 6 bytes (8 thorough), single block at base 0; strings <= 6 bytes",
                "atom extraction checked for ANY quality function (nondeterministic per call)",
                "stubs: notebook -> malloc, configuration constants, lowercase table filled by the same loop as yr_initialize",
-               "base64 modifiers and the automaton builder on symbolic atoms are outside this round (builder: P19, 65 GB)"]
+               "base64: the construction of the three searched strings is checked (necessity, any alphabet); the regexp built from them runs on the full regex VM and is outside; the automaton builder on symbolic atoms is outside (P19, 65 GB)"]
 LEVEL_TEXT = ("Bounded model checking: for each template the solver covers every buffer up to the bound (offset 0, last byte, overlaps, fullword neighbours, "
               "interleaved ascii/wide, every xor key) against an occurrence predicate written from the manual; atom extraction is checked for every string up to 6 bytes.")
 LEVEL_NOTE = "; ".join(ASSUMPTIONS)
